@@ -52,6 +52,9 @@ type Req struct {
 	ErrAt       int   `json:"err_at"`               // >=0: after this many wire bytes Read fails (client abort); -1 none
 
 	ContentLength bool `json:"content_length,omitempty"` // wire mode: send Content-Length instead of chunked transfer-encoding
+	// ContentType header of the request ("" = application/json); what clients send does not change what a
+	// body is: curl -d sends application/x-www-form-urlencoded
+	ContentType string `json:"content_type,omitempty"`
 
 	StallEvery int `json:"stall_every,omitempty"` // controller.In yields to other requests on every k-th call
 }
@@ -61,6 +64,7 @@ type Case struct {
 	ES           bool   `json:"es"`   // emulate_mode: elasticsearch (all requests go to /_bulk)
 	Mode         string `json:"mode"` // seq | lockstep | free | wire (real TCP connection to net/http serving the plugin)
 	AvgEventSize int    `json:"avg_event_size"`
+	Meta         bool   `json:"meta,omitempty"` // the input is configured with meta templates (remote_addr, params, request_uuid)
 	Sched        []int  `json:"sched,omitempty"` // lockstep: who makes the next step
 	Reqs         []Req  `json:"reqs"`
 }
@@ -290,6 +294,9 @@ func genReq(t *rapid.T, r int, c *Case, allowLong bool) Req {
 		q.Path = rapid.SampledFrom([]string{"/", "/logger", "/_bulk", "/x/y?z=1"}).Draw(t, "path")
 	}
 	body := buildBody(r, &q)
+	if chance(t, "ctype", 3) {
+		q.ContentType = rapid.SampledFrom([]string{"application/x-www-form-urlencoded", "application/x-www-form-urlencoded", "text/plain", "multipart/form-data; boundary=xyz", "application/x-ndjson"}).Draw(t, "content_type")
+	}
 
 	if bits(t, "gz", 3) >= 5 {
 		q.Gzip = 1
@@ -393,6 +400,7 @@ func gen(t *rapid.T) Case {
 		nreq = rapid.IntRange(2, 8).Draw(t, "nreq")
 	}
 	c.ES = chance(t, "es", 2)
+	c.Meta = chance(t, "meta", 2)
 	c.AvgEventSize = rapid.SampledFrom([]int{1, 16, 256, 4096}).Draw(t, "avgEventSize")
 	allowLong := chance(t, "allowLong", 2)
 	for r := 0; r < nreq; r++ {
